@@ -5864,6 +5864,38 @@ impl BytecodeVM {
                 Ok(OpResult::Continue)
             }
 
+            Op::ReExportAll { source_module } => {
+                let source_specifier = self
+                    .get_string_constant(source_module)
+                    .ok_or_else(|| JsError::internal_error("Invalid source module constant"))?;
+                let source_module_obj = interp.resolve_module(source_specifier.as_ref())?;
+
+                // Every named export of the source (never `default`); a name this module
+                // exports itself wins over the star export
+                let names: Vec<JsString> = source_module_obj
+                    .borrow()
+                    .properties
+                    .keys()
+                    .filter_map(|k| match k {
+                        PropertyKey::String(s) if s.as_str() != "default" => Some(s.cheap_clone()),
+                        _ => None,
+                    })
+                    .collect();
+                for name in names {
+                    if !interp.exports.contains_key(&name) {
+                        interp.exports.insert(
+                            name.cheap_clone(),
+                            crate::value::ModuleExport::ReExport {
+                                source_module: source_module_obj.cheap_clone(),
+                                source_key: PropertyKey::String(name),
+                            },
+                        );
+                    }
+                }
+
+                Ok(OpResult::Continue)
+            }
+
             Op::ReExport {
                 export_name,
                 source_module,
